@@ -40,6 +40,7 @@ func (g *Gen) instr(in ssa.Instruction, st *State, reach string) bool {
 		return false
 	case *ssa.Call:
 		g.call(in, in.Common(), st, reach)
+		g.havocCaptured(st)
 	case *ssa.Defer:
 		var args []*SV
 		for _, a := range in.Call.Args {
@@ -61,6 +62,7 @@ func (g *Gen) instr(in ssa.Instruction, st *State, reach string) bool {
 		}
 		g.unmodelled["go statement"] = true
 		g.havocAll(st, "go")
+		g.havocCaptured(st)
 	case *ssa.Extract:
 		t := g.val(in.Tuple, st)
 		if t.Tup == nil {
@@ -135,8 +137,13 @@ func (g *Gen) instr(in ssa.Instruction, st *State, reach string) bool {
 	case *ssa.TypeAssert:
 		g.typeAssert(in, st, reach)
 	case *ssa.MakeClosure:
-		if !g.pa {
-			// closures are opaque values; calling them is what matters
+		for _, b := range in.Bindings {
+			if al, ok := b.(*ssa.Alloc); ok {
+				if st.captured == nil {
+					st.captured = map[*ssa.Alloc]bool{}
+				}
+				st.captured[al] = true
+			}
 		}
 		g.defineHavoc(in, "closure")
 	case *ssa.Range:
@@ -202,7 +209,9 @@ func (g *Gen) alloc(in *ssa.Alloc, st *State) {
 		g.vals[in] = &SV{S: r, T: in.Type()}
 		return
 	}
-	if !in.Heap {
+	if !in.Heap || g.capturedOnly(in) {
+		// (variables that escape only into closures of this function stay cells; they are havoc'd at
+		// every call made after such a closure has been created, see havocCaptured)
 		st.cells[in] = g.zero(t)
 		g.vals[in] = &SV{LV: &LVal{kind: lvCell, alloc: in, base: t}, T: in.Type()}
 		return
@@ -1087,4 +1096,40 @@ func (c *Ctx) heapSortsTouchC(k, s string) {
 		c.heapSortsM = map[string]string{}
 	}
 	c.heapSortsM[k] = s
+}
+
+// capturedOnly: a heap-allocated local whose address escapes only into closures of this function.
+func (g *Gen) capturedOnly(a *ssa.Alloc) bool {
+	if _, isArr := a.Type().(*types.Pointer).Elem().Underlying().(*types.Array); isArr {
+		return false
+	}
+	seenClosure := false
+	for _, r := range *a.Referrers() {
+		switch r := r.(type) {
+		case *ssa.UnOp, *ssa.DebugRef, *ssa.FieldAddr, *ssa.IndexAddr:
+		case *ssa.Store:
+			if r.Val == a {
+				return false
+			}
+		case *ssa.MakeClosure:
+			seenClosure = true
+		default:
+			return false
+		}
+	}
+	return seenClosure
+}
+
+// havocCaptured: after a closure capturing a variable exists, any call may run it.
+func (g *Gen) havocCaptured(st *State) {
+	for al := range st.captured {
+		if _, ok := st.cells[al]; !ok {
+			continue
+		}
+		t := al.Type().(*types.Pointer).Elem()
+		n := g.freshConst("cap."+al.Name(), g.sortOf(t))
+		g.addFact(g.rangeFact(n, t))
+		g.addFact(g.allocBound(n, t, st.alloc))
+		st.cells[al] = n
+	}
 }
